@@ -2391,7 +2391,7 @@ impl Zeroconf {
         listener: Sender<HostnameResolutionEvent>,
         timeout: Option<u64>,
     ) {
-        let real_timeout = timeout.map(|t| current_time_millis() + t);
+        let real_timeout = timeout.map(|t| current_time_millis().saturating_add(t));
         self.hostname_resolvers
             .insert(hostname.to_lowercase(), (listener, real_timeout));
         if let Some(t) = real_timeout {
@@ -3894,7 +3894,7 @@ impl Zeroconf {
         let expire_at = if repeating {
             None
         } else {
-            Some(now + timeout.as_millis() as u64)
+            Some(now.saturating_add(timeout.as_millis() as u64))
         };
 
         // send query for the resource records.
@@ -4732,8 +4732,10 @@ fn name_change(original: &str) -> String {
                 let num_start = paren_pos + 2; // Skip " ("
                                                // Try to parse the number between parentheses
                 if let Ok(number) = first_part[num_start..absolute_end_pos].parse::<u32>() {
-                    let base_name = &first_part[..paren_pos];
-                    new_name = format!("{} ({})", base_name, number + 1)
+                    if let Some(next) = number.checked_add(1) {
+                        let base_name = &first_part[..paren_pos];
+                        new_name = format!("{} ({})", base_name, next)
+                    }
                 }
             }
         }
@@ -4762,8 +4764,10 @@ fn hostname_change(original: &str) -> String {
     if let Some(hyphen_pos) = first_part.rfind('-') {
         // Try to parse everything after the hyphen as a number
         if let Ok(number) = first_part[hyphen_pos + 1..].parse::<u32>() {
-            let base_name = &first_part[..hyphen_pos];
-            new_name = format!("{}-{}", base_name, number + 1);
+            if let Some(next) = number.checked_add(1) {
+                let base_name = &first_part[..hyphen_pos];
+                new_name = format!("{}-{}", base_name, next);
+            }
         }
     }
 
